@@ -2,6 +2,7 @@
 single-line JSON reports printed by the specification (PrintT("TAG " \\o ToJson(..)))."""
 import json
 import os
+import sys
 import re
 import shutil
 import subprocess
@@ -81,6 +82,47 @@ def extract_reports(out, tags):
     return res
 
 
+def _corrupt(env, seed):
+    """bin/selftest-corrupt: flips ONE recorded leaf value in the observation file handed to TLC (binding self-test:
+    a check whose specification really constrains the recorded data reports a violation).  Never active in a check run."""
+    import json
+    import random
+    for key in ("TV_FILE", "TRACE_FILE"):
+        f = env.get(key)
+        if not f or not os.path.isfile(str(f)) or os.path.getsize(str(f)) == 0:
+            continue
+        try:
+            data = json.load(open(f))
+        except ValueError:
+            continue
+        leaves = []
+
+        def walk(x, path):
+            if isinstance(x, dict):
+                for k, v in x.items():
+                    if k in ("id", "text", "name", "tags", "c_text", "fmt", "why", "devsets", "known", "allowed"):
+                        continue
+                    walk(v, path + [k])
+            elif isinstance(x, list):
+                for i, v in enumerate(x):
+                    walk(v, path + [i])
+            elif isinstance(x, (bool, int, str)):
+                leaves.append(path)
+        walk(data, [])
+        if not leaves:
+            continue
+        rnd = random.Random(seed)
+        path = rnd.choice(leaves)
+        x = data
+        for k in path[:-1]:
+            x = x[k]
+        old = x[path[-1]]
+        x[path[-1]] = (not old) if isinstance(old, bool) else (old ^ 1 if isinstance(old, int) else old + "_x")
+        json.dump(data, open(f, "w"))
+        sys.stderr.write("CORRUPTED %s at %s: %r -> %r\n" % (key, "/".join(map(str, path)), old, x[path[-1]]))
+        return
+
+
 def run(module, cfg, env=None, workers=None, timeout=3600, simulate=None, depth=None, seed=None,
         coverage=False, tags=(), extra=(), deadlock=False, xss="512m", heap=None):
     """Runs TLC with cwd = spec dir.  Returns TLCResult.  Raises TLCError only for machinery failure."""
@@ -106,6 +148,8 @@ def run(module, cfg, env=None, workers=None, timeout=3600, simulate=None, depth=
     e = dict(os.environ)
     if env:
         e.update({k: str(v) for k, v in env.items()})
+    if os.environ.get("VERIF_CORRUPT") and env:
+        _corrupt(env, int(os.environ["VERIF_CORRUPT"]))
     t0 = time.time()
     try:
         p = subprocess.run(cmd, cwd=SPEC, env=e, stdout=subprocess.PIPE, stderr=subprocess.STDOUT, timeout=timeout)
